@@ -13,6 +13,7 @@ import (
 	"os"
 	"path/filepath"
 	"strings"
+	"sync/atomic"
 	"time"
 
 	"golang.org/x/net/ipv4"
@@ -44,6 +45,13 @@ type Ev struct {
 	Peer int    `json:"peer,omitempty"`
 	Secs int    `json:"secs,omitempty"`
 	Ms   int    `json:"ms,omitempty"`
+	// flood: Flood handshake initiations with valid MAC1 and no MAC2 while the device is under load (cookie replies)
+	Flood   int `json:"flood,omitempty"`
+	Cookies int `json:"cookies,omitempty"` // observed: cookie replies the device sent during the flood
+	// dg with Junk > 0: the TUN write of this step is held open (sim.Tun.WriteGate) while a batch of Junk
+	// unauthenticated datagrams (type 0xEE, same sizes, a forged IPv4 packet at the content offset) arrives
+	Junk     int `json:"junk,omitempty"`
+	JunkSent int `json:"junk_sent,omitempty"`
 	// MaxLateMs: the step is only valid if it starts at most this many ms after the preceding "age" event
 	MaxLateMs int  `json:"max_late_ms,omitempty"`
 	Dgs       []Dg `json:"dgs,omitempty"`
@@ -190,6 +198,35 @@ func run(sc *Scenario) {
 					ev.Writes = append(ev.Writes, x.Data)
 				}
 			}
+		case "flood":
+			before := rxOf()
+			p := peers[0]
+			w.Dev.VerifForceUnderLoad(3 * time.Second)
+			var ds []sim.Dgram
+			for k := 0; k < ev.Flood; k++ {
+				p.NextIdx++
+				st := ref.CreateInitiation(p.Priv, ref.NewPrivate(), w.DevPub, p.Psk, p.NextIdx, ref.Tai64n(time.Now()))
+				ds = append(ds, sim.Dgram{From: p.Addr, Data: st.Msg})
+			}
+			out := w.InjectBatch(ds...)
+			w.Dev.VerifForceUnderLoad(0)
+			for _, x := range out.Sent {
+				if len(x.Data) == ref.CookieSize && x.Data[0] == ref.TypeCookie {
+					ev.Cookies++
+				}
+			}
+			if !out.Settled {
+				sc.Discarded = "unsettled"
+				poisoned = true
+				return
+			}
+			for _, x := range out.Written {
+				ev.Writes = append(ev.Writes, x.Data)
+			}
+			after := rxOf()
+			for i := range after {
+				ev.Rx[i] = after[i] - before[i]
+			}
 		case "dg":
 			if ev.MaxLateMs > 0 && time.Since(aged) > time.Duration(ev.MaxLateMs)*time.Millisecond {
 				sc.Discarded = fmt.Sprintf("datagram step started %v after the age shift (loaded machine)", time.Since(aged))
@@ -238,7 +275,41 @@ func run(sc *Scenario) {
 				}
 				ds = append(ds, sim.Dgram{From: from, Data: msg})
 			}
+			var fired atomic.Int32
+			if ev.Junk > 0 {
+				var junk []sim.Dgram
+				for k := 0; k < ev.Junk; k++ {
+					n := 64
+					if len(ds) > 0 {
+						n = len(ds[k%len(ds)].Data)
+					}
+					if n < 36 {
+						n = 36
+					}
+					j := make([]byte, n)
+					for i := range j {
+						j[i] = 0x66
+					}
+					j[0], j[1], j[2], j[3] = 0xee, 0, 0, 0
+					if n >= 16+20 { // where an inbound element's plaintext would start
+						copy(j[16:], []byte{0x45, 0, byte((n - 32) >> 8), byte(n - 32), 0, 0, 0, 0, 64, 17, 0, 0, 10, 66, 66, 66, 10, 9, 9, 9})
+					}
+					junk = append(junk, sim.Dgram{From: peers[0].Addr, Data: j})
+				}
+				w.Tun.WriteGate = func(bufs [][]byte) {
+					if fired.Add(1) <= 3 {
+						w.Bind.Inject(junk...)
+						time.Sleep(2 * time.Millisecond)
+					}
+				}
+			}
 			out := w.InjectBatch(ds...)
+			w.Tun.WriteGate = nil
+			if n := int(fired.Load()); n > 3 {
+				ev.JunkSent = 3 * ev.Junk
+			} else {
+				ev.JunkSent = n * ev.Junk
+			}
 			if !out.Settled {
 				sc.Discarded = "unsettled"
 				poisoned = true
@@ -551,13 +622,37 @@ func (g *gen) confirm(s *gsess) Ev {
 	return Ev{Kind: "dg", Dgs: []Dg{{Sess: s.serial, IdxOf: s.serial, Ctr: c, Plain: pl, Note: "first-under-offered/" + note}}}
 }
 
-func genScenario(r *rand.Rand, big bool) *Scenario {
+// cookiePhase: handshake flood under load (cookie replies), then rounds of authentic batches whose TUN write is
+// held open while junk of the same sizes arrives, so that any sharing of message buffers between the receive
+// slots and in-flight inbound elements shows as foreign bytes on the TUN
+func (g *gen) cookiePhase(sc *Scenario) {
+	r := g.r
+	sc.Evs = append(sc.Evs, Ev{Kind: "flood", Flood: 150 + r.Intn(250)})
+	rounds := 20 + r.Intn(15)
+	for i := 0; i < rounds; i++ {
+		k := 1 + r.Intn(16)
+		ev := Ev{Kind: "dg", Junk: k}
+		for j := 0; j < k; j++ {
+			ev.Dgs = append(ev.Dgs, g.datagram())
+		}
+		sc.Evs = append(sc.Evs, ev)
+		if i == rounds/2 {
+			sc.Evs = append(sc.Evs, Ev{Kind: "flood", Flood: 60 + r.Intn(100)})
+		}
+	}
+}
+
+func genScenario(r *rand.Rand, big bool, cookie bool) *Scenario {
 	sc := &Scenario{Gen: "random", NPeers: 1 + r.Intn(3)}
 	if r.Intn(3) == 0 {
 		sc.NPeers = 2
 	}
 	sc.Table = dpath.GenTable(r, sc.NPeers)
 	sc.BindBatch = []int{1, 2, 4, 16, 128}[r.Intn(5)]
+	if cookie {
+		sc.Gen = "random-cookie-load"
+		sc.BindBatch = []int{4, 16, 16, 128}[r.Intn(4)]
+	}
 	g := &gen{r: r, sc: sc, big: big}
 	g.bnd4 = dpath.Boundary(r, sc.Table, 4)
 	g.bnd6 = dpath.Boundary(r, sc.Table, 6)
@@ -567,6 +662,9 @@ func genScenario(r *rand.Rand, big bool) *Scenario {
 		}
 	}
 	n := 6 + r.Intn(14)
+	if cookie {
+		n = 3
+	}
 	restarts := 0
 	if r.Intn(3) == 0 {
 		restarts = 1 + r.Intn(2)
@@ -614,6 +712,9 @@ func genScenario(r *rand.Rand, big bool) *Scenario {
 		default:
 			sc.Evs = append(sc.Evs, Ev{Kind: "age", Peer: r.Intn(sc.NPeers), Secs: 100})
 		}
+	}
+	if cookie {
+		g.cookiePhase(sc)
 	}
 	return sc
 }
@@ -816,6 +917,21 @@ func gallina(sc *Scenario) string {
 					fmt.Fprintf(&b, "RTr [%d;%d;%d;%d;%d;%d] %s", d.UsedIdx, d.Sess, t, d.Ctr>>32, d.Ctr&0xffffffff, len(d.Plain), dpath.Ints(d.Plain))
 				}
 			}
+			for j := 0; j < ev.JunkSent; j++ { // what arrived while the TUN write was held open: not WireGuard at all
+				if j > 0 || len(ev.Dgs) > 0 {
+					b.WriteString(";")
+				}
+				b.WriteString("RRaw 238 64")
+			}
+			b.WriteString("]")
+		case "flood": // initiations that are answered with cookie replies: nothing for the data path
+			b.WriteString("RDg [")
+			for j := 0; j < ev.Flood; j++ {
+				if j > 0 {
+					b.WriteString(";")
+				}
+				b.WriteString("RRaw 1 148")
+			}
 			b.WriteString("]")
 		}
 	}
@@ -912,8 +1028,9 @@ func buildJobs(seed int64, n int, big bool, corpus, replayIn string) []job {
 	master := rand.New(rand.NewSource(seed)) // ONE PRNG: it deals a seed to every random scenario
 	for i := 0; i < n; i++ {
 		s := master.Int63()
+		cookie := i < 4 || i%12 == 5 // a few scenarios of every run put the device under handshake load
 		jobs = append(jobs, job{"random", false, func() *Scenario {
-			sc := genScenario(rand.New(rand.NewSource(s)), big)
+			sc := genScenario(rand.New(rand.NewSource(s)), big, cookie)
 			run(sc)
 			if sc.Discarded != "" && !poisoned {
 				run(sc)
